@@ -139,10 +139,10 @@ Section SeenDict.
 End SeenDict.
 
 (* ---------- one run *)
-Theorem fix_post_run g vx nx vn nn inits m :
+Theorem fix_post_run g own vx nx vn nn inits m :
   WF0 vn inits -> closed_run (events_graph g) inits -> NoDup (ev_nodes (events_graph g)) ->
   let es := events_graph g in
-  let r := fix_graph_names g vx nx vn nn inits m in
+  let r := fix_graph_names g own vx nx vn nn inits m in
   let s' := fst r in
   snd r = None /\
   (* every value and node met has a non-empty name *)
@@ -159,17 +159,17 @@ Theorem fix_post_run g vx nx vn nn inits m :
   WF0 (f_vn s') (f_inits s').
 Proof.
   intros W Hc ND es r s'.
-  destruct (fix_run_total g vx nx vn nn inits m W Hc) as [Hnone [Wf [_ Tf]]].
+  destruct (fix_run_total g own vx nx vn nn inits m W Hc) as [Hnone [Wf [_ Tf]]].
   fold r in Hnone, Wf, Tf. fold s' in Wf, Tf.
   set (rv := fst (collect_names es vn nn inits)) in *. set (rn := snd (collect_names es vn nn inits)).
-  assert (Er : r = fx_events es (fx_init vx nx rv rn vn nn inits m)).
+  assert (Er : r = fx_events es (fx_init own vx nx rv rn vn nn inits m)).
   { unfold r, fix_graph_names, rv, rn, es. destruct (collect_names (events_graph g) vn nn inits); reflexivity. }
-  assert (Hrun : fx_events es (fx_init vx nx rv rn vn nn inits m) = (s', None)).
+  assert (Hrun : fx_events es (fx_init own vx nx rv rn vn nn inits m) = (s', None)).
   { rewrite <- Er. unfold s'. destruct r as [a b]. simpl in *. subst b. reflexivity. }
   assert (Hev : Forall (ev_closed inits (entered es)) es).
   { apply closed_events; [|apply incl_refl]. intros w Hw g0 k X. eapply Hc; eassumption. }
-  pose proof (TInv_init vx nx vn nn inits m g W) as T0. simpl in T0. fold es rv rn in T0.
-  assert (G0 : GInv gh0 (fx_init vx nx rv rn vn nn inits m)).
+  pose proof (TInv_init own vx nx vn nn inits m g W) as T0. simpl in T0. fold es rv rn in T0.
+  assert (G0 : GInv gh0 (fx_init own vx nx rv rn vn nn inits m)).
   { constructor; simpl.
     - constructor; [intros v [] | constructor].
     - intros M [<-|[]] v w [].
@@ -177,7 +177,7 @@ Proof.
     - intros v. tauto.
     - intros v []. }
   destruct (fx_events_both vn inits rv (entered es) W es _ _ _ Hev Hrun T0 G0) as [_ Gf].
-  assert (N0 : NInv (ev_nodes es) ngh0 (fx_init vx nx rv rn vn nn inits m)).
+  assert (N0 : NInv (ev_nodes es) ngh0 (fx_init own vx nx rv rn vn nn inits m)).
   { constructor; simpl.
     - constructor; [intros a [] | constructor].
     - intros M [<-|[]] a b [].
